@@ -713,6 +713,9 @@ func (g *Gen) elemIdx(off, i string) string {
 	if i == "0" {
 		return off
 	}
+	if g.unroll > 0 {
+		return "(+ " + off + " " + i + ")"
+	}
 	if !g.declared["idx"] {
 		g.declared["idx"] = true
 		g.emit("(declare-fun idx (Int Int) Int)")
